@@ -23,6 +23,7 @@ API
                                           (masked address, prefix length); None = not compared
   canon(m) -> hashable canonical form of effective(m)   (semantic identity of a match)
   is_exact(m) -> bool                  no wildcard bit set and both prefixes /32 on the wire
+  is_exact_semantic(m) -> bool         as is_exact, disregarding wildcard bits on inapplicable fields
   extract(frame, in_port) -> packet fields as the switch must extract them (absent layers -> 0)
   matches(m, pkt) -> bool              pkt from extract()
   ambiguous(m, pkt) -> [zone, ...]     zones where the specification does not settle the outcome
@@ -142,6 +143,25 @@ def is_exact(m):
   return (m["wildcards"] & OFPFW_ALL) == 0
 
 
+def is_exact_semantic(m):
+  """Every field that can take part in matching is fully specified; wildcard bits on fields that the
+  prerequisite rule makes inapplicable (nw_*/tp_* of a non-IP flow, ...) are disregarded.
+  is_exact(m) implies is_exact_semantic(m); where only the latter holds the specification does not
+  say whether the entry ranks as an exact match."""
+  w = m["wildcards"]
+  implied = 0
+  dt = None if (w & OFPFW_DL_TYPE) else m["dl_type"]
+  proto = None if (w & OFPFW_NW_PROTO) else m["nw_proto"]
+  if dt == frames.ETH_IP:
+    if proto is not None and proto not in (1, 6, 17):
+      implied = OFPFW_TP_SRC | OFPFW_TP_DST
+  elif dt == frames.ETH_ARP:
+    implied = OFPFW_NW_TOS | OFPFW_TP_SRC | OFPFW_TP_DST
+  elif dt is not None:
+    implied = OFPFW_NW_TOS | OFPFW_NW_PROTO | OFPFW_NW_SRC_MASK | OFPFW_NW_DST_MASK | OFPFW_TP_SRC | OFPFW_TP_DST
+  return (w & ~implied & OFPFW_ALL) == 0
+
+
 # --------------------------------------------------------------------------- packet side
 
 def extract(frame, in_port):
@@ -248,7 +268,7 @@ def ambiguous(m, pkt):
       z.append("pcp-untagged")
     elif e["dl_vlan"] is None and e["dl_vlan_pcp"] == 0:
       z.append("pcp-untagged")
-  for n in ("snap-oui", "vlan+llc", "arp-op>255", "arp-plen", "arp-odd", "truncated", "qinq"):
+  for n in ("snap-oui", "vlan+llc", "arp-op>255", "arp-plen", "arp-odd", "truncated"):
     if n in notes:
       z.append(n)
   if e["dl_type"] == frames.ETH_IP and e["nw_proto"] not in (None, 1, 6, 17) and \
